@@ -36,8 +36,11 @@ type world struct {
 	// dispatch resolution.
 	repoNamed []*types.Named
 
+	impls map[*types.Func][]*types.Func // repo interface method -> concrete repo methods
+
 	kvStoreIface *types.Interface // cosmos-sdk/store/types.KVStore
 	warnings     []string
+	unresolved   []string // dynamic calls met while inlining handlers that were not followed
 }
 
 type funcDecl struct {
@@ -55,8 +58,10 @@ func main() {
 	repo := flag.String("repo", "/repo", "path of the sge repository to analyse")
 	out := flag.String("out", "/verif/coq/Gen", "output directory for generated .v files")
 	verbose := flag.Bool("v", false, "print tables summary to stdout")
+	trace := flag.String("trace", "", "print the inlined call tree of one handler, e.g. house/Withdraw (or \"all\")")
 	flag.Parse()
 
+	outDir = *out
 	t0 := time.Now()
 	absRepo, err := filepath.Abs(*repo)
 	if err != nil {
@@ -73,7 +78,7 @@ func main() {
 	fmt.Printf("translator: loaded %d root packages (%d total) in %.1fs\n", len(w.pkgs), len(w.all), tLoad.Seconds())
 
 	t1 := time.Now()
-	hs, tmsgs, err := analyseHandlers(w)
+	hs, tmsgs, err := analyseHandlers(w, *trace)
 	if err != nil {
 		fatal(err)
 	}
@@ -107,11 +112,26 @@ func main() {
 		len(hs), len(tmsgs), len(perms.maccPerms), len(sites), tAn.Seconds(), time.Since(t0).Seconds(), *out, strings.Join(names, ","))
 	if *verbose {
 		printSummary(hs, tmsgs, perms, sites)
+		fmt.Println("== calls reached from handlers that were NOT followed")
+		for _, u := range w.unresolved {
+			fmt.Println("  " + u)
+		}
 	}
 }
 
+// outDir is set once flags are parsed; on a fatal error the (possibly stale)
+// tables of a previous run are removed so that no theorem can be checked
+// against tables that do not correspond to the current sources.
+var outDir string
+
 func fatal(err error) {
 	fmt.Fprintln(os.Stderr, "translator: error:", err)
+	if outDir != "" {
+		for _, n := range []string{"handlers.v", "perms.v", "nondet.v"} {
+			os.Remove(filepath.Join(outDir, n))
+		}
+		fmt.Fprintln(os.Stderr, "translator: removed stale tables from", outDir)
+	}
 	os.Exit(1)
 }
 
@@ -139,6 +159,7 @@ func load(repo string) (*world, error) {
 		fset:  fset,
 		all:   map[string]*packages.Package{},
 		decls: map[*types.Func]*funcDecl{},
+		impls: map[*types.Func][]*types.Func{},
 	}
 	nerr := 0
 	packages.Visit(pkgs, nil, func(p *packages.Package) {
